@@ -221,10 +221,13 @@ def gen_file(rng):
         m = simio.spd_information(rng, n, True, 1e6)
         return [float(m[i][j]) for i in range(n) for j in range(i, n)]
 
-    n2 = rng.randint(0, 5)
-    n3 = rng.randint(0, 5)
-    if n2 + n3 == 0:
-        n2 = 2
+    big = 12 if rng.random() < 0.03 else 1  # occasionally a file with hundreds of lines
+    if big > 1:
+        meta["big_file"] = True
+    n2 = rng.randint(0, 5) * big
+    n3 = rng.randint(0, 5) * big
+    if n2 + n3 == 0 and rng.random() < 0.8:
+        n2 = 2  # (otherwise: a file with no vertex at all -- parameters, junk and blank lines only)
     nl2 = rng.randint(0, 3) if n2 else 0
     nl3 = rng.randint(0, 3) if n3 else 0
     nv = n2 + n3 + nl2 + nl3
@@ -253,11 +256,11 @@ def gen_file(rng):
         plines.append(("PARAMS_SE2OFFSET", [I(pid), F(val()), F(val()), F(ang())]))
     elines = []
     if len(by["SE2"]) >= 2:
-        for _ in range(rng.randint(1, 5)):
+        for _ in range(rng.randint(1, 5 * big)):
             a, b = rng.sample(by["SE2"], 2)
             elines.append(("EDGE_SE2", [I(a), I(b), F(val()), F(val()), F(ang())] + [F(v) for v in tri(3)]))
     if len(by["SE3"]) >= 2:
-        for _ in range(rng.randint(1, 4)):
+        for _ in range(rng.randint(1, 4 * big)):
             a, b = rng.sample(by["SE3"], 2)
             q = simio.unit_quat(rng)
             if rng.random() < 0.3:
@@ -454,6 +457,10 @@ class C14(OptEngineBase):
                 "file": rng.randrange(2) if two else 0,
                 "scribble": rng.random() < 0.25,
             })
+        if meta.get("big_file"):
+            for o in ops:
+                o["xfer"] = max(o["xfer"], 64)  # byte-wise delivery of a 100 kB file would only burn time
+                o["bufsize"] = max(o["bufsize"], 61)
         if not any(o["entry"] == "Graph.from_g2o" for o in ops):
             ops[0]["entry"] = "Graph.from_g2o"
         if workload.get("lines_bad"):
